@@ -777,6 +777,48 @@ def stream_inputs(ctx, runner):
     st.exhaustive = False
 
 
+SCALE_SIZES = (0, 1, 2, 9, 10, 11, 16, 17, 64, 65, 100, 101, 128, 129, 200, 300)
+
+
+def scale_cases(ctx):
+    """SIZE axis (round 8: fast paths that only differ beyond a size no small example reaches): for each size n the pair kinds identical,
+    one replaced line at the start / middle / end, k appended lines, a CRLF text against its LF copy, the same lines as one array and as
+    one text; independent lists only up to 65 lines (the look-ahead is quadratic)."""
+    rng = ctx.rng('diff-scale')
+    for n in SCALE_SIZES:
+        base = ['line %d' % (i % 97) for i in range(n)]
+        yield 'identical', n, list(base), list(base)
+        if n:
+            for where, pos in (('start', 0), ('middle', n // 2), ('end', n - 1)):
+                other = list(base)
+                other[pos] = 'changed'
+                yield 'replace-' + where, n, list(base), other
+            yield 'append', n, list(base), base + ['tail %d' % i for i in range(1 + n % 3)]
+            yield 'prepend', n, ['head'] + base, list(base)
+            yield 'crlf-vs-lf', n, '\r\n'.join(base) + '\r\n', '\n'.join(base) + '\n'
+            yield 'array-vs-text', n, list(base), '\n'.join(base)
+        if n <= 65:
+            yield 'independent', n, [rng.choice('abc') for _ in range(n)], [rng.choice('abc') for _ in range(n)]
+
+
+def stream_scale(ctx, runner):
+    st = ctx.stream('diff-scale', 'SIZE axis: line counts %s x pair kinds (identical, one replaced line at start / middle / end, appended / '
+                                  'prepended lines, CRLF text vs LF copy, array vs text, independent lists up to 65 lines), each through a fresh '
+                                  '`include <diff.bare>`; the reconstruction / non-empty-block / identical-inputs oracles on the '
+                                  'implementation, the Lean function as model; non-trivial = more than 17 lines' % (SCALE_SIZES,))
+    cases = list(scale_cases(ctx))
+    models = [None] * len(cases)
+    if ctx.driver is not None:
+        models = [model_out(x) for x in ctx.driver.batch([{'op': 'diff', 'left': l, 'right': r} for _, _, l, r in cases])]
+    for (kind, n, left, right), model in zip(cases, models):
+        impl = check_case(ctx, 'diff-scale', runner.fresh, (left, right), model, 'fresh')
+        if impl is SKIPPED:
+            st.case([kind, n], nontrivial=False, tags=['skipped'])
+            continue
+        st.case([kind, n], nontrivial=n > 17, tags=[kind, 'n=%d' % n, 'blocks=%s' % (min(len(impl), 9) if isinstance(impl, list) else 'error')])
+    st.exhaustive = False
+
+
 def stream_cli_path(ctx, runner, kmax):
     st = ctx.stream('diff-cli', 'ALL pairs of line lists of length <= %d over {a,b,c}, every pair through the full CLI path (include fetched, '
                                 'parsed and executed afresh): must equal the model and the shared-globals run; and once more called from a script '
@@ -1961,6 +2003,7 @@ def stream_includes(ctx):
 def streams(ctx):
     runner = Runner()
     stream_inputs(ctx, runner)
+    stream_scale(ctx, runner)
     stream_twins(ctx, runner)
     stream_hosts(ctx, runner)
     # a runner each: a variant that overruns its statement budget under one kind of host configuration must not switch the others off
